@@ -177,3 +177,16 @@ Proof.
 Qed.
 
 End Thms.
+
+(** the meaning of [ext] and of the cache invariant [COK], spelled out *)
+Lemma ext_meaning : forall s s',
+  ext s s' <-> forall id nd, cfind (cn s) id = Some nd ->
+    exists nd', cfind (cn s') id = Some nd' /\ cl nd' = cl nd /\ cch nd' = cch nd.
+Proof. intros s s'. reflexivity. Qed.
+
+Lemma cok_meaning : forall terms nl C cget t (c : C),
+  COK terms nl C cget t c <->
+  forall code args h, cget c code args = Some h ->
+    cref_ok_b terms t h = true /\ (forall r, In r args -> cref_ok_b terms t r = true) /\
+    (N.ltb code 39 = true -> minlvl nl t args <= crlevel nl t h).
+Proof. intros. reflexivity. Qed.
